@@ -131,6 +131,8 @@ package keeper
 //@   ensures err == nil ==> forall k `(Pair Bytes Bytes)` :: fst(k) != creator && fst(k) != moduleAddr("distribution") ==> bank.bal[k] == old(bank.bal)[k]   // C01: only_creator_pays
 //@   ensures err == nil ==> NextL1Sequences == old(NextL1Sequences) && NextOutputIndexes == old(NextOutputIndexes) && OutputProposals == old(OutputProposals)
 //@        && ProvenWithdrawals == old(ProvenWithdrawals) && TokenPairs == old(TokenPairs)        // C01,C10: nothing_prerecorded
+//@   ensures $hookFailed ==> err != nil                                                           // C19: hook_failure_fails_creation
+//@   ensures err == nil ==> $hookCalls == 1 && $hookBridge == id && $hookCfg == req.Config        // C19: hook_sees_new_bridge
 //@   assigns BridgeConfigs[id], BatchInfos[(id, *)], NextBridgeId, bank.bal, auth.acc, perm.admin, events
 
 //@ func (MsgServer) UpdateProposer
@@ -147,6 +149,8 @@ package keeper
 //@   ensures err == nil ==> old(BridgeConfigs)[b] != None && (req.Authority == ms.authority || req.Authority == cfg.Challenger)   // C12: gov_or_challenger
 //@   ensures err == nil ==> BridgeConfigs[b] != None && val(BridgeConfigs[b]).Challenger == req.Challenger                        // C12: takes_effect
 //@   ensures err == nil ==> val(BridgeConfigs[b]).FinalizationPeriod == cfg.FinalizationPeriod && val(BridgeConfigs[b]).Proposer == cfg.Proposer      // C05: period_unchanged
+//@   ensures $hookFailed ==> err != nil                                                           // C19: hook_failure_fails_update
+//@   ensures err == nil ==> $hookCalls == 1 && $hookBridge == b && $hookCfg == val(BridgeConfigs[b]) && $hookCfg.Challenger == req.Challenger && $hookCfg.Metadata == cfg.Metadata   // C19: hook_sees_new_challenger
 //@   assigns BridgeConfigs[b], perm.admin, events
 
 //@ func (MsgServer) UpdateBatchInfo
@@ -167,6 +171,8 @@ package keeper
 //@ func (MsgServer) UpdateMetadata
 //@   let b := req.BridgeId
 //@   let cfg := val(BridgeConfigs[b])
+//@   ensures $hookFailed ==> err != nil                                                           // C19: hook_failure_fails_update
+//@   ensures err == nil ==> $hookCalls == 1 && $hookBridge == b && $hookCfg == val(BridgeConfigs[b]) && $hookCfg.Metadata == req.Metadata && $hookCfg.Challenger == cfg.Challenger   // C19: hook_sees_new_metadata
 //@   ensures err == nil ==> old(BridgeConfigs)[b] != None && (req.Authority == ms.authority || req.Authority == cfg.Proposer)    // C12: gov_or_proposer
 //@   ensures err == nil ==> val(BridgeConfigs[b]).FinalizationPeriod == cfg.FinalizationPeriod && val(BridgeConfigs[b]).Proposer == cfg.Proposer && val(BridgeConfigs[b]).Challenger == cfg.Challenger   // C05,C12: roles_and_period_unchanged
 //@   assigns BridgeConfigs[b], perm.admin, events
